@@ -278,7 +278,7 @@ def fcbo(model, R, key, S_):
                     f'(Objects.fromint({dict(want_pair)["O"]}), Properties.fromint({dict(want_pair)["P"]}))', src(pcv))
         else:
             R.unknown(rule, func, push, f'{tag}: pushed concept', src(pcv))
-        okk = name_is(pk, j) or (isinstance(pk, ast.BinOp) and isinstance(pk.op, ast.Add) and name_is(pk.left, j) and const(pk.right) == 1)
+        okk = name_is(pk, j) or (isinstance(pk, ast.BinOp) and isinstance(pk.op, ast.Add) and name_is(pk.left, j) and const(pk.right) in (0, 1))
         R.check(okk, rule, func, push, f'{tag}: pushed start index is j or j + 1', f'{j} + 1', src(pk))
         R.check(src(pn) in (nvar, n2), rule, func, push, f'{tag}: pushed table is the node\'s table', f'{n2 or nvar}', src(pn))
     else:
